@@ -432,7 +432,7 @@ class Lifecycle:
         objmap = {('CONNP', 'in_tx'): 'INTX', ('CONNP', 'out_tx'): 'OUTTX', ('INTX', 'connp'): 'CONNP', ('OUTTX', 'connp'): 'CONNP',
                   ('CONNP', 'cfg'): 'CFG', ('INTX', 'cfg'): 'CFG', ('OUTTX', 'cfg'): 'CFG'}
         # the other direction's own fields are environment: leaving them untracked (TOP) keeps the abstraction sound and much smaller
-        tracked = TR - ({'out_state', 'out_status', 'response_transfer_coding', 'out_tx'} if direction == 'in' else {'in_state', 'in_status', 'request_transfer_coding', 'request_progress'})
+        tracked = TR - ({'out_state', 'out_status', 'response_transfer_coding', 'out_tx', 'out_data_other_at_tx_end'} if direction == 'in' else {'in_state', 'in_status', 'request_transfer_coding', 'request_progress', 'in_tx'})
         if direction == 'in':
             tracked |= {'out_status'}      # written together with in_status by the tunnel probe
         self.eng = Engine(db, objmap, tracked, self.on_call, lambda n: n in rel, max_depth=12, on_assign=self.on_assign)
@@ -518,6 +518,9 @@ class Lifecycle:
             if self.d == 'in':
                 st['MON'] = frozenset([-1])
             else:
+                for k in list(st):
+                    if k.startswith('INTX.') or k == 'CONNP.in_tx':
+                        st.pop(k)
                 # response without request: the new transaction is also the response transaction
                 for f_ in ('request_progress', 'response_progress', 'is_protocol_0_9', 'response_transfer_coding'):
                     st['OUTTX.' + f_] = frozenset([0])
@@ -578,8 +581,9 @@ class Lifecycle:
                     c[stk] = frozenset([STREAM['DATA']])
                     out.append(c)                                                # htp_connp_req_data entry
             c = Frozen(so)
-            c['CONNP.in_status'] = frozenset([STREAM['TUNNEL']])
-            c['CONNP.out_status'] = frozenset([STREAM['TUNNEL']])
+            c[stk] = frozenset([STREAM['TUNNEL']])
+            if d == 'in':
+                c['CONNP.out_status'] = frozenset([STREAM['TUNNEL']])
             out.append(c)                                                        # the other side switched to tunnel mode
         return out
 
@@ -587,8 +591,12 @@ class Lifecycle:
         d = self.d
         drv = 'htp_connp_req_data' if d == 'in' else 'htp_connp_res_data'
         idle = 'fn:htp_connp_REQ_IDLE' if d == 'in' else 'fn:htp_connp_RES_IDLE'
-        init = Frozen({'CONNP.%s_state' % d: frozenset([idle]), 'CONNP.in_status': frozenset([STREAM['OPEN']]), 'CONNP.out_status': frozenset([STREAM['OPEN']]),
-                       'CONNP.%s_tx' % d: frozenset([0]), 'MON': frozenset(['NONE']), 'CONNP.out_data_other_at_tx_end': frozenset([0])})
+        init = Frozen({'CONNP.%s_state' % d: frozenset([idle]), 'CONNP.%s_status' % d: frozenset([STREAM['OPEN']]),
+                       'CONNP.%s_tx' % d: frozenset([0]), 'MON': frozenset(['NONE'])})
+        if d == 'out':
+            init['CONNP.out_data_other_at_tx_end'] = frozenset([0])
+        else:
+            init['CONNP.out_status'] = frozenset([STREAM['OPEN']])
         pre = {init.key(): init}
         work = [init]
         posts = {}
@@ -623,6 +631,11 @@ class Lifecycle:
         return self
 
 
+# wall-clock bound of one direction's exploration; the exploration is a deterministic worklist that terminates (about 300 s alone),
+# the bound only guards against a machine so loaded that it would not; a run that hits it reports UNKNOWN, never HOLDS
+BUDGET = 7200
+
+
 def lifecycle_result(db, d, budget_s):
     """run (or reuse, keyed by a hash of the extracted facts) the exploration of one direction"""
     import hashlib, json, os
@@ -632,26 +645,49 @@ def lifecycle_result(db, d, budget_s):
         h.update(json.dumps(db.units[u]['functions'], sort_keys=True).encode())
     h.update(open(__file__, 'rb').read())
     p = os.path.join(VERIF, 'work', 'typestate-%s-%s.json' % (d, h.hexdigest()[:16]))
-    if os.path.exists(p):
-        r = json.load(open(p))
-        if r['stats']['complete'] or r['budget'] >= budget_s:
-            r['cached'] = True
-            return r
-    lc = Lifecycle(db, d, budget_s).explore()
-    r = dict(budget=budget_s, stats=lc.stats, side=lc.side,
-             viol=[[list(map(str, k)), list(v)] for k, v in lc.viol.items()],
-             sticky=list(lc.sticky.values()), regress=[[list(map(str, k)), v] for k, v in lc.progress_regress.items()], cached=False)
     os.makedirs(os.path.dirname(p), exist_ok=True)
-    json.dump(r, open(p, 'w'))
+    import fcntl
+    with open(p + '.lock', 'w') as lk:
+        fcntl.flock(lk, fcntl.LOCK_EX)       # C05, C09 and C16 thorough share one exploration per direction and tree
+        if os.path.exists(p):
+            r = json.load(open(p))
+            if r['stats']['complete'] or r['budget'] >= budget_s:
+                r['cached'] = True
+                return r
+        lc = Lifecycle(db, d, budget_s).explore()
+        r = dict(budget=budget_s, stats=lc.stats, side=lc.side,
+                 viol=[[list(map(str, k)), list(v)] for k, v in lc.viol.items()],
+                 sticky=list(lc.sticky.values()), regress=[[list(map(str, k)), v] for k, v in lc.progress_regress.items()], cached=False)
+        json.dump(r, open(p + '.tmp', 'w'))
+        os.replace(p + '.tmp', p)
     return r
 
 
-def check_sticky(db, res, rule, budget_s=900):
+def lifecycle_results(db, budget_s, directions=('in', 'out')):
+    """both directions, explored in two forked processes"""
+    import multiprocessing
+    global _DB
+    _DB = db                                  # inherited by the forked workers (the fact base is not pickled)
+    ctx = multiprocessing.get_context('fork')
+    with ctx.Pool(len(directions)) as pool:
+        hs = [pool.apply_async(_lifecycle_worker, (d, budget_s)) for d in directions]
+        return {d: h.get() for d, h in zip(directions, hs)}
+
+
+_DB = None
+
+
+def _lifecycle_worker(d, budget_s):
+    return lifecycle_result(_DB, d, budget_s)
+
+
+def check_sticky(db, res, rule, budget_s=BUDGET):
     """thorough clause shared by C09 and C16: no callback of a direction runs in a driver call that was entered with
     that direction in ERROR, STOP or TUNNEL (all abstract states that the exploration reaches)"""
     res.rule(rule, '(typestate) in every reachable abstract state with status ERROR / STOP / TUNNEL a driver call runs no callback of that direction')
+    rs = lifecycle_results(db, budget_s)
     for d in ('in', 'out'):
-        r = lifecycle_result(db, d, budget_s)
+        r = rs[d]
         side = r['side']
         res.analysed['typestate %s' % side] = r['stats']
         if r['sticky']:
@@ -663,10 +699,11 @@ def check_sticky(db, res, rule, budget_s=900):
             res.unknown(rule, '%s:exploration' % side, 'abstract state space not exhausted within the budget (%d states explored, none violating)' % r['stats']['between_call_states'])
 
 
-def check_c05(db, res, budget_s=900, directions=('in', 'out')):
+def check_c05(db, res, budget_s=BUDGET, directions=('in', 'out')):
     res.rule('C05.c', 'callback order and no callback after completion, for all inputs, chunkings and callback return values: the automaton of hook events of the abstract system (finite typestate abstraction of the driver loop and every state function, extracted from the code) is included in the rank-monotonic specification')
+    rs = lifecycle_results(db, budget_s, directions)
     for d in directions:
-        r = lifecycle_result(db, d, budget_s)
+        r = rs[d]
         stats = r['stats']
         res.analysed['typestate %s' % r['side']] = stats
         side = r['side']
